@@ -611,6 +611,16 @@ func (in *e8interp) eval(fr *e8frame, e ast.Expr) *val {
 			ln, rn = rn, ln
 		}
 		return &val{k: kScalar, name: "(" + ln + x.Op.String() + rn + ")"}
+	case *ast.SliceExpr:
+		// a sub-slice / substring is an opaque value named after its operands
+		part := func(e ast.Expr) string {
+			if e == nil {
+				return ""
+			}
+			return in.valName(in.evalQuiet(fr, e), e)
+		}
+		name := "slice(" + part(x.X) + "," + part(x.Low) + "," + part(x.High) + ")"
+		return in.newInput(name, info.TypeOf(e))
 	case *ast.IndexExpr:
 		base := in.eval(fr, x.X)
 		if base.k == kStruct {
